@@ -125,6 +125,54 @@ int main(void)
 			result_ret(ret, ev.id);
 			free(dat);
 		}
+		else if (!strcmp(op, "hashn") && drv_nw == 2) {
+			/* mpt_dispatch_hash with an event that carries no message */
+			MPT_STRUCT(event) ev = MPT_EVENT_INIT;
+			ev.id = 77;
+			int ret = mpt_dispatch_hash(DISP, &ev);
+			result_ret(ret, ev.id);
+		}
+		else if (!strcmp(op, "djb2") && drv_nw == 3) {
+			/* mpt_hash_djb2 on a terminated buffer (len = -1) and on exactly the given bytes (in a block of that size) */
+			uint8_t *dat, *blk; size_t dlen; int isnull;
+			char v[80];
+			if (drv_parse_data(drv_w[2], &dat, &dlen, &isnull)) { puts("bad-op"); continue; }
+			if (isnull) { free(dat); puts("bad-op"); continue; }
+			blk = malloc(dlen + 1);
+			memcpy(blk, dat, dlen);
+			blk[dlen] = 0;
+			uintptr_t hz = mpt_hash_djb2(blk, -1);
+			free(blk);
+			blk = malloc(dlen ? dlen : 1);
+			memcpy(blk, dat, dlen);
+			uintptr_t hn = mpt_hash_djb2(blk, (int) dlen);
+			free(blk);
+			free(dat);
+			snprintf(v, sizeof(v), "z=%" PRIuPTR " n=%" PRIuPTR, hz, hn);
+			result(v, "0", 0);
+		}
+		else if (!strcmp(op, "hold") && drv_nw == 4) {
+			/* k reservations in a row that stay outstanding (placeholder handler, not activated), then released again:
+			 * the ids handed out must be distinct and carried by no active element */
+			uintptr_t w, k, ids[300];
+			size_t got = 0, i, j;
+			int fresh = 1;
+			char v[64], buf[32];
+			if (parse_id(drv_w[2], &w) || parse_id(drv_w[3], &k) || k > 300 || w > 9) { puts("bad-op"); continue; }
+			while (got < k) {
+				MPT_STRUCT(command) *base, *c = mpt_command_reserve((MPT_STRUCT(array) *) (void *) &D->_d, w);
+				size_t n;
+				if (!c) break;
+				n = table(&base);
+				for (i = 0; i < n; i++) if (base + i != c && base[i].cmd && base[i].id == c->id) fresh = 0;
+				ids[got++] = c->id;
+			}
+			for (i = 0; i < got; i++) for (j = 0; j < i; j++) if (ids[i] == ids[j]) fresh = 0;
+			for (i = 0; i < got; i++) if (mpt_dispatch_set(DISP, ids[i], 0, 0) < 0) fresh = 0;
+			snprintf(v, sizeof(v), "ok n=%zu fresh=%d", got, fresh);
+			snprintf(buf, sizeof(buf), "%" PRIuPTR, got ? ids[got-1] : (uintptr_t) 0);
+			result(v, buf, 0);
+		}
 		else if (!strcmp(op, "reserve") && drv_nw == 3) {
 			uintptr_t w;
 			if (parse_id(drv_w[2], &w) || nreg >= MAXREG) { puts("bad-op"); continue; }
@@ -158,11 +206,22 @@ int main(void)
 			MPT_STRUCT(command) *base, tmp;
 			size_t n = table(&base), i, r;
 			uintptr_t rv;
-			if (parse_id(drv_w[2], &rv) || rv >= nreg) { puts("bad-op"); continue; }
+			if (parse_id(drv_w[2], &rv) || rv > 99999) { puts("bad-op"); continue; }
 			r = (size_t) rv;
-			for (i = 0; i < n; i++) if (base[i].cmd && base[i].arg == (void *) &regs[r]) break;
-			if (i >= n) { puts("bad-op"); continue; }
+			for (i = 0; i < n; i++) if (r < nreg && base[i].cmd && base[i].arg == (void *) &regs[r]) break;
 			memset(&tmp, 0xa5, sizeof(tmp));
+			if (i >= n) {
+				/* no element holds the registration: the source is an unused element, or no source at all */
+				MPT_STRUCT(command) unused;
+				size_t b;
+				memset(&unused, 0, sizeof(unused));
+				unused.id = rv;
+				int ret0 = mpt_command_traits()->init(&tmp, (rv & 1) ? &unused : 0);
+				for (b = 0; b < sizeof(tmp); b++) if (((unsigned char *) &tmp)[b]) ret0 = ret0 < 0 ? ret0 : -99;
+				if (ret0 >= 0) mpt_command_traits()->fini(&tmp);
+				result_verdict(ret0);
+				continue;
+			}
 			int ret = mpt_command_traits()->init(&tmp, base + i);
 			/* a constructed copy is destroyed again through the traits */
 			if (ret >= 0) mpt_command_traits()->fini(&tmp);
